@@ -13,13 +13,13 @@ Q_Cids    == {"c0", "c1", "c2"}
 Q_COwner  == [c \in Q_Cids |-> IF c = "c2" THEN "o2" ELSE "o1"]
 Q_PutCids == {"c1", "c2"}
 Q_Names   == {"n1", "n2"}
-Q_Variants == {"a", "b"}
+Q_Variants == {"b"}
 Q_SignerSets == {{}, {"ALPHA"}, {"ALPHA", "CMT"}, {"X"}}
 
 T_Owners  == {"o1", "o2"}
-T_Cids    == {"c0", "c1", "c2", "c3"}
+T_Cids    == {"c0", "c1", "c2"}
 T_COwner  == [c \in T_Cids |-> IF c \in {"c2"} THEN "o2" ELSE "o1"]
-T_PutCids == {"c1", "c2", "c3"}
+T_PutCids == {"c1", "c2"}
 T_Names   == {"n1", "n2"}
 T_Variants == {"a", "b"}
 T_SignerSets == {{}, {"ALPHA"}, {"ALPHA", "CMT"}, {"CMT"}, {"X"}}
